@@ -83,7 +83,7 @@ UNVERIFIED = {
     "C07": ["that the expression state handed back to restore_stack_frame re-runs the same step (eval_expr mutates `expr_state` only in arms that cannot fail; not stated as a contract)",
             "check_string and the built-in dispatch (eval_built_in_call / eval_built_in_method_call) are used through contracts whose builder sites are proved in unit restore",
             "continuation entries a step pushed to exprs_to_eval before failing stay there (If/Match/While arms of eval_expr): harmless for a repeated :resume, not covered"],
-    "C04": ["of `x += e` / `x -= e` the step function eval_assign_update is under contract here: the name reads as the wrapped sum afterwards, given that Bindings::set_existing makes the name read as the value it is given (Bindings::get / set_existing walk the blocks innermost first; their bodies are not under contract)"],
+    "C04": ["of `x += e` / `x -= e` the step function eval_assign_update is under contract here: the name reads as the wrapped sum afterwards, given that Bindings::set_existing makes the name read as the value it is given (proved in unit bindings: get / has / set_existing / add_new against `lookup`, the innermost block that binds the name)"],
     "C13": ["that `==` on Value is Value_::eq (derived PartialEq through Rc) — Value_::eq itself is under contract in unit valeq"],
     "C02": ["the operand-count preconditions (eval_expr evaluates and pushes the operands before the step) are assumed of the caller"],
 }
